@@ -23,7 +23,10 @@ from ..progs import Boom
 
 rs = bootstrap()
 
-FAIL_OPS = ['map', 'starmap', 'filter', 'scan', 'scan_reduce', 'scan_list']
+FAIL_OPS = ['map', 'starmap', 'filter', 'scan', 'scan_reduce', 'scan_list', 'sum_km', 'mean_km', 'variance_km', 'max_km', 'stddev_km', 'fvariance_km']
+AGG = {'sum_km': lambda **kw: rs.math.sum(**kw), 'mean_km': lambda **kw: rs.math.mean(**kw), 'variance_km': lambda **kw: rs.math.variance(**kw),
+       'max_km': lambda **kw: rs.math.max(**kw), 'stddev_km': lambda **kw: rs.math.stddev(**kw), 'fvariance_km': lambda **kw: rs.math.formal.variance(**kw)}
+DRIVES = ['cold', 'cold', 'hot_errors_first', 'hot_data_first']
 HANDLERS = ['ignore', 'error_map', 'router', 'none']
 DOWNSTREAM = ['none', 'running_sum', 'distinct', 'lag', 'count']
 
@@ -71,6 +74,17 @@ def fail_op(kind, F, mode):
         if mode == 'replaced':
             return [rs.ops.filter(lambda x: inF(x) or x % 3 != 0), rs.ops.map(lambda x: g_err(Boom(x)) if inF(x) else x)]
         return [rs.ops.filter(p)]
+    if kind in AGG:
+        # an aggregate defined through scan whose key_mapper - the user's function inside its accumulator - raises
+        # on a dirty record: the record must not leave a trace in the running aggregate (count, mean weights ...)
+        def km(x):
+            chk(x)
+            return x * 1.5 - 4
+        if mode == 'replaced':
+            return [rs.ops.tee_map(rx.pipe(rs.ops.filter(inF), rs.ops.map(lambda x: g_err(Boom(x)))),
+                                   rx.pipe(rs.ops.filter(lambda x: not inF(x)), AGG[kind](key_mapper=lambda x: x * 1.5 - 4), rs.ops.map(_r9)),
+                                   join='merge')]
+        return [AGG[kind](key_mapper=km), rs.ops.map(_r9)]
     if kind == 'scan_list':
         # a list-valued fold with a non-empty seed: a state slot that silently reads 0 instead of "not set" is visible
         def accl(a, x):
@@ -94,6 +108,13 @@ def fail_op(kind, F, mode):
         return [rs.ops.scan(lambda s, x: (s[0], g_err(Boom(x))) if inF(x) else (s[0] + x, s[0] + x), (0, 0)),
                 rs.ops.map(lambda s: s[1])]
     return [rs.ops.scan(acc, 0, reduce=reduce)]
+
+
+def _r9(v):
+    """floats to 9 significant digits, as ints where integral (the downstream operators of this check work on ints)"""
+    if isinstance(v, float):
+        return int(round(v * 1000))
+    return v
 
 
 def downstream(kind, listy=False):
@@ -124,7 +145,7 @@ class C13(Check):
                    'expected outputs come from fault-free executions of transformed pipelines (item absent / item replaced), i.e. the fault-free behaviour of map/filter/scan is trusted here and checked by C01/C09']
     ANCHORS = ['rxsci/operators/map.py', 'rxsci/operators/filter.py', 'rxsci/operators/scan.py', 'rxsci/operators/starmap.py',
                'rxsci/error/ignore.py', 'rxsci/error/map.py', 'rxsci/error/router.py', 'rxsci/operators/multiplex.py', 'rxsci/operators/group_by.py']
-    REQUIRED_TAGS = ['op=' + o for o in FAIL_OPS] + ['handler=' + h for h in HANDLERS] + ['top', 'group', 'all-fail', 'first-fails', 'last-fails', 'consecutive', 'no-fault', 'over-64-keys']
+    REQUIRED_TAGS = ['op=' + o for o in FAIL_OPS] + ['handler=' + h for h in HANDLERS] + ['top', 'group', 'all-fail', 'first-fails', 'last-fails', 'consecutive', 'no-fault', 'over-64-keys', 'drive=cold', 'drive=hot_errors_first', 'drive=hot_data_first']
     REQUIRED_OBSERVED = ['mux_errors_observed', 'dead_letters_compared', 'fatal_errors_observed', 'outputs_compared']
 
     def generate(self, rng, tier, shard, nshards):
@@ -142,7 +163,7 @@ class C13(Check):
                         if idx % nshards != shard:
                             continue
                         yield {'op': op, 'handler': h, 'down': DOWNSTREAM[idx % len(DOWNSTREAM)], 'ctx': 'group' if (idx // 7) % 2 else 'top',
-                               'ngroups': 2 + idx % 2, 'n': n, 'F': F, 'perm_seed': idx}
+                               'ngroups': 2 + idx % 2, 'n': n, 'F': F, 'perm_seed': idx, 'drive': DRIVES[(idx // 3) % len(DRIVES)]}
         self.box_done = 1
 
     def _random(self, rng, tier):
@@ -159,7 +180,8 @@ class C13(Check):
             n = rng.choice([8, 12, 20, 40])
             F = sorted(rng.sample(range(n), rng.choice([1, 2, n // 3, n // 2, n - 1, n])))
             yield {'op': FAIL_OPS[j % len(FAIL_OPS)], 'handler': HANDLERS[(j // 5) % len(HANDLERS)], 'down': rng.choice(DOWNSTREAM),
-                   'ctx': rng.choice(['top', 'group']), 'ngroups': rng.randint(2, 4), 'n': n, 'F': F, 'perm_seed': rng.randrange(1 << 30)}
+                   'ctx': rng.choice(['top', 'group']), 'ngroups': rng.randint(2, 4), 'n': n, 'F': F, 'perm_seed': rng.randrange(1 << 30),
+                   'drive': rng.choice(DRIVES)}
 
     # ------------------------------------------------------------------
     _router = None
@@ -175,7 +197,7 @@ class C13(Check):
             return [(groups[i], i) for i in range(case['n'])], groups
         return list(range(case['n'])), groups
 
-    def _run(self, case, items, groups, fops, handler, log=None):
+    def _run(self, case, items, groups, fops, handler, log=None, drive='cold'):
         """-> (main Snap, dead-letter Snap or None)"""
         ops_ = []
         if log is not None:
@@ -201,7 +223,9 @@ class C13(Check):
             def oc():
                 dead.completions += 1
                 _oc()
-            errors.subscribe(on_next=dead.on_next, on_error=dead.on_error, on_completed=oc)
+            sub_errors = lambda: errors.subscribe(on_next=dead.on_next, on_error=dead.on_error, on_completed=oc)      # noqa: E731
+            if drive != 'hot_data_first':
+                sub_errors()
             ops_.append(route())
         ops_ += downstream(case['down'], listy=(case['op'] == 'scan_list'))
         if case['ctx'] == 'group':
@@ -210,7 +234,24 @@ class C13(Check):
             pipe = [rs.ops.group_by(keyf, ops_)]
         else:
             pipe = ops_
-        main = subscribe(rx.from_(items).pipe(rs.state.with_memory_store(pipe)), Snap())
+        if drive == 'cold':
+            main = subscribe(rx.from_(items).pipe(rs.state.with_memory_store(pipe)), Snap())
+            return main, dead
+        # a pushed source: the data stream and the dead letter may be subscribed in either order, as long as both
+        # are before the first item
+        from ..progs import Controlled
+        src = Controlled()
+        main = Snap()
+        try:
+            src.observable.pipe(rs.state.with_memory_store(pipe)).subscribe(on_next=main.on_next, on_error=main.on_error, on_completed=main.on_completed)
+            if drive == 'hot_data_first' and handler == 'router':
+                sub_errors()
+            for x in items:
+                src.push(x)
+            src.complete()
+        except Exception as e:          # noqa: BLE001
+            if main.err is None:
+                main.err = e
         return main, dead
 
     def evaluate(self, case):
@@ -238,7 +279,9 @@ class C13(Check):
             out.nontrivial = True
 
         log = []
-        main, dead = self._run(case, items, groups, fail_op(op, F, 'faulty'), handler, log)
+        drive = case.get('drive', 'cold')
+        out.tags.append('drive=' + drive)
+        main, dead = self._run(case, items, groups, fail_op(op, F, 'faulty'), handler, log, drive=drive)
         # "as if the item were absent": the failing operator sees its key without the item.  The item is
         # dropped right in front of the operator (not from the source), so keys created upstream by the
         # item still exist - a reducing scan legitimately emits its seed for a key whose items all failed.
